@@ -75,6 +75,10 @@ type DialInfo struct {
 	Port    string
 	Label   string // label of the dialling goroutine
 	ViaTLS  bool   // set by simtls: this dial is the transport of a TLS client
+	// SendBuf may be set by World.Dial: how many bytes the client may have written that the server
+	// has not read yet before Write blocks (0 = no limit), like a socket buffer plus the peer's
+	// receive window.
+	SendBuf int
 }
 
 // World is implemented by the harness. Dial is called by the driver goroutine (so it may
@@ -120,6 +124,9 @@ type half struct {
 	evActive bool
 	dir      string
 	waiter   chan struct{} // parked reader of this half
+	wwaiter  chan struct{} // parked writer of this half (only with a capacity)
+	capacity int           // bytes written and not yet read before Write blocks (0 = unlimited)
+	readerGone bool        // the reading end was closed: nothing holds writes back any more
 	written  int
 	delivered int
 	segHook  func(available int) int // optional, driver context: how many bytes to deliver next
@@ -142,6 +149,9 @@ type Endpoint struct {
 	rdl     time.Time
 	rdlSeq  int
 	rdlHit  bool
+	wdl     time.Time
+	wdlSeq  int
+	wdlHit  bool
 	Info    DialInfo
 }
 
@@ -189,6 +199,10 @@ func wake(h *half) {
 		close(h.waiter)
 		h.waiter = nil
 	}
+	if h.wwaiter != nil {
+		close(h.wwaiter)
+		h.wwaiter = nil
+	}
 }
 
 func (e *Endpoint) opErr(op string, err error) error {
@@ -215,6 +229,10 @@ func (e *Endpoint) Read(b []byte) (int, error) {
 		if len(in.readable) > 0 {
 			n := copy(b, in.readable)
 			in.readable = in.readable[n:]
+			if in.wwaiter != nil {
+				close(in.wwaiter)
+				in.wwaiter = nil
+			}
 			p.mu.Unlock()
 			return n, nil
 		}
@@ -240,25 +258,54 @@ func (e *Endpoint) Read(b []byte) (int, error) {
 func (e *Endpoint) Write(b []byte) (int, error) {
 	p := e.p
 	out := e.out()
-	p.mu.Lock()
-	if e.closed {
+	written := 0
+	for {
+		p.mu.Lock()
+		if e.closed {
+			p.mu.Unlock()
+			return written, e.opErr("write", net.ErrClosed)
+		}
+		if p.s.Draining() {
+			p.mu.Unlock()
+			return written, e.opErr("write", errors.New("simulation ended"))
+		}
+		if out.fin || out.rst {
+			p.mu.Unlock()
+			return written, e.opErr("write", errors.New("broken pipe"))
+		}
+		if e.wdlHit || (!e.wdl.IsZero() && !time.Now().Before(e.wdl)) {
+			p.mu.Unlock()
+			return written, e.opErr("write", &timeoutError{"write"})
+		}
+		// the peer has closed its end: like a socket, the first write succeeds locally, data is lost
+		room := len(b)
+		if out.capacity > 0 && !out.readerGone {
+			room = out.capacity - len(out.inflight) - len(out.readable)
+		}
+		if room > 0 || len(b) == 0 {
+			n := room
+			if n > len(b) {
+				n = len(b)
+			}
+			out.inflight = append(out.inflight, b[:n]...)
+			out.written += n
+			written += n
+			b = b[n:]
+			e.armLocked(out)
+			if len(b) == 0 {
+				p.mu.Unlock()
+				return written, nil
+			}
+			p.mu.Unlock()
+			continue
+		}
+		// the buffers are full and the peer is not reading: wait for room, the deadline or the end
+		p.s.Probe("net_write_blocked")
+		ch := make(chan struct{})
+		out.wwaiter = ch
 		p.mu.Unlock()
-		return 0, e.opErr("write", net.ErrClosed)
+		<-ch
 	}
-	if p.s.Draining() {
-		p.mu.Unlock()
-		return 0, e.opErr("write", errors.New("simulation ended"))
-	}
-	if out.fin || out.rst {
-		p.mu.Unlock()
-		return 0, e.opErr("write", errors.New("broken pipe"))
-	}
-	// the peer has closed its end: like a socket, the first write succeeds locally, data is lost
-	out.inflight = append(out.inflight, b...)
-	out.written += len(b)
-	e.armLocked(out)
-	p.mu.Unlock()
-	return len(b), nil
 }
 
 // armLocked makes sure a delivery event exists for the half.
@@ -367,13 +414,17 @@ func (e *Endpoint) Close() error {
 	if !out.rst {
 		out.fin = true
 	}
+	e.in().readerGone = true
 	wake(e.in())
 	if !p.s.Draining() {
 		e.armLocked(out)
 	}
 	key := "dl:" + p.key + ":" + e.side() + "#" + strconv.Itoa(e.rdlSeq)
+	wkey := "wdl:" + p.key + ":" + e.side() + "#" + strconv.Itoa(e.wdlSeq)
+	wake(out)
 	p.mu.Unlock()
 	p.s.Remove(key)
+	p.s.Remove(wkey)
 	return nil
 }
 
@@ -396,6 +447,7 @@ func (e *Endpoint) Reset() {
 	out := e.out()
 	out.rst = true
 	out.fin = false
+	e.in().readerGone = true
 	wake(e.in())
 	if !p.s.Draining() {
 		e.armLocked(out)
@@ -418,10 +470,54 @@ func (e *Endpoint) Stall() {
 }
 
 func (e *Endpoint) SetDeadline(t time.Time) error {
-	return e.SetReadDeadline(t)
+	if err := e.SetReadDeadline(t); err != nil {
+		return err
+	}
+	return e.SetWriteDeadline(t)
 }
 
-func (e *Endpoint) SetWriteDeadline(t time.Time) error { return nil } // writes never block here
+func (e *Endpoint) SetWriteDeadline(t time.Time) error {
+	p := e.p
+	p.mu.Lock()
+	if e.closed {
+		p.mu.Unlock()
+		return e.opErr("set", net.ErrClosed)
+	}
+	oldKey := "wdl:" + p.key + ":" + e.side() + "#" + strconv.Itoa(e.wdlSeq)
+	e.wdlSeq++
+	newKey := "wdl:" + p.key + ":" + e.side() + "#" + strconv.Itoa(e.wdlSeq)
+	e.wdl = t
+	e.wdlHit = false
+	capacity := e.out().capacity
+	var delay time.Duration
+	arm := false
+	if !t.IsZero() {
+		delay = time.Until(t)
+		if delay <= 0 {
+			e.wdlHit = true
+			wake(e.out())
+		} else {
+			arm = true
+		}
+	}
+	p.mu.Unlock()
+	p.s.Remove(oldKey)
+	// a write can only block on a connection with a bounded buffer; elsewhere no timer is needed
+	if arm && capacity > 0 && !p.s.Draining() {
+		p.s.Add(&simrt.Event{
+			Key: newKey, Class: "timer", Exact: true, Delay: delay,
+			Fire: func() {
+				p.mu.Lock()
+				e.wdlHit = true
+				wake(e.out())
+				p.mu.Unlock()
+				p.s.Probe("write_deadline_fired")
+			},
+			Abort: func() {},
+		})
+	}
+	return nil
+}
 
 func (e *Endpoint) SetReadDeadline(t time.Time) error {
 	p := e.p
@@ -561,6 +657,7 @@ func (d *Dialer) DialEndpoint(network, address string) (*Endpoint, error) {
 				p := &pipe{s: s, key: "c" + strconv.Itoa(info.Ordinal), info: *info}
 				p.c2s.dir = "c2s"
 				p.s2c.dir = "s2c"
+				p.c2s.capacity = info.SendBuf
 				s.AtDrain(func() {
 					p.mu.Lock()
 					wake(&p.c2s)
